@@ -497,7 +497,7 @@ func (f *frame) applyEffects(eff *effects, st *State, cur string, name string) s
 		st.trace = B.declConst(B.fresh("trace"), "(Array Int Event)")
 		st.ntrace = B.declConst(B.fresh("ntrace"), "Int")
 		cur = and(cur, fmt.Sprintf("(>= %s %s)", st.ntrace, oldN),
-			fmt.Sprintf("(forall ((?i Int)) (! (=> (and (<= 0 ?i) (< ?i %s)) (= (select %s ?i) (select %s ?i))) :pattern ((select %s ?i))))", oldN, st.trace, oldT, st.trace))
+			fmt.Sprintf("(forall ((?i Int)) (! (=> (and (<= 0 ?i) (< ?i %s)) (= (select %s ?i) (select %s ?i))) :pattern ((select %s ?i)) :qid e18_calls_500))", oldN, st.trace, oldT, st.trace))
 	}
 	return cur
 }
@@ -713,7 +713,7 @@ func (f *frame) contractCall(res ssa.Value, plan callPlan, c *ssa.CallCommon, st
 				st.trace = B.declConst(B.fresh("trace"), "(Array Int Event)")
 				st.ntrace = B.declConst(B.fresh("ntrace"), "Int")
 				cur = and(cur, fmt.Sprintf("(>= %s %s)", st.ntrace, oldN),
-					fmt.Sprintf("(forall ((?i Int)) (! (=> (and (<= 0 ?i) (< ?i %s)) (= (select %s ?i) (select %s ?i))) :pattern ((select %s ?i))))", oldN, st.trace, oldT, st.trace))
+					fmt.Sprintf("(forall ((?i Int)) (! (=> (and (<= 0 ?i) (< ?i %s)) (= (select %s ?i) (select %s ?i))) :pattern ((select %s ?i)) :qid e19_calls_716))", oldN, st.trace, oldT, st.trace))
 				continue
 			}
 			if err := envPre.applyModifies(m, st); err != nil {
@@ -981,8 +981,8 @@ func (f *frame) appendOp(res ssa.Value, c *ssa.CallCommon, st *State, cur string
 	st.heap[name] = na
 	t.noteVersion(na, st.alloc)
 	// prefix preserved (both cases), appended elements, in-place: everything outside the appended window unchanged
-	cur = and(cur, fmt.Sprintf("(forall ((?i Int)) (! (=> (and (<= 0 ?i) (< ?i (s_len %s))) (= (select %s (+ %s ?i)) (select (select %s (s_base %s)) (+ (s_off %s) ?i)))) :pattern ((select %s (+ %s ?i))) :pattern ((select (select %s (s_base %s)) (+ (s_off %s) ?i)))))", s, inner, ro, old, s, s, inner, ro, old, s, s))
-	cur = and(cur, fmt.Sprintf("(forall ((?i Int)) (! (=> (and (<= 0 ?i) (< ?i %s)) (= (select %s (+ %s (s_len %s) ?i)) (select (select %s (s_base %s)) (+ (s_off %s) ?i)))) :pattern ((select (select %s (s_base %s)) (+ (s_off %s) ?i)))))", n, inner, ro, s, old, x, x, old, x, x))
+	cur = and(cur, fmt.Sprintf("(forall ((?i Int)) (! (=> (and (<= 0 ?i) (< ?i (s_len %s))) (= (select %s (+ %s ?i)) (select (select %s (s_base %s)) (+ (s_off %s) ?i)))) :pattern ((select %s (+ %s ?i))) :pattern ((select (select %s (s_base %s)) (+ (s_off %s) ?i))) :qid e20_calls_984))", s, inner, ro, old, s, s, inner, ro, old, s, s))
+	cur = and(cur, fmt.Sprintf("(forall ((?i Int)) (! (=> (and (<= 0 ?i) (< ?i %s)) (= (select %s (+ %s (s_len %s) ?i)) (select (select %s (s_base %s)) (+ (s_off %s) ?i)))) :pattern ((select (select %s (s_base %s)) (+ (s_off %s) ?i))) :qid e21_calls_985))", n, inner, ro, s, old, x, x, old, x, x))
 	// append(s, a, b, ...): the variadic slice has a literal length, state its elements one by one (no trigger needed)
 	if sv, ok := c.Args[1].(*ssa.Slice); ok && sv.Low == nil && sv.High == nil {
 		if al, ok := sv.X.(*ssa.Alloc); ok {
@@ -993,7 +993,7 @@ func (f *frame) appendOp(res ssa.Value, c *ssa.CallCommon, st *State, cur string
 			}
 		}
 	}
-	cur = and(cur, fmt.Sprintf("(=> %s (forall ((?j Int)) (! (=> (or (< ?j (+ (s_off %s) (s_len %s))) (>= ?j (+ (s_off %s) %s))) (= (select %s ?j) (select (select %s %s) ?j))) :pattern ((select %s ?j)))))", inPlace, s, s, s, newLen, inner, old, rb, inner))
+	cur = and(cur, fmt.Sprintf("(=> %s (forall ((?j Int)) (! (=> (or (< ?j (+ (s_off %s) (s_len %s))) (>= ?j (+ (s_off %s) %s))) (= (select %s ?j) (select (select %s %s) ?j))) :pattern ((select %s ?j)) :qid e22_calls_996)))", inPlace, s, s, s, newLen, inner, old, rb, inner))
 	f.vals[res] = &Val{term: r}
 	return cur, nil
 }
